@@ -13,7 +13,7 @@ func init() {
 	register(Harness{
 		Prop: "C16", Pkg: "extension", Func: "VerifC16Order",
 		Quick:    [][]int64{{2, 0, 0}, {2, 1, 0}, {3, 1, 0}, {2, 0, 1}, {3, 1, 1}, {4, 0, 2}, {6, 1, 2}},
-		Thorough: [][]int64{{3, 0, 0}, {4, 0, 0}, {4, 1, 0}, {3, 0, 1}, {4, 1, 1}, {4, 0, 2}, {6, 0, 2}, {6, 1, 3}, {6, 1, 2}},
+		Thorough: [][]int64{{3, 0, 0}, {4, 0, 0}, {4, 1, 0}, {3, 0, 1}, {4, 1, 1}, {4, 0, 2}, {6, 0, 2}, {5, 1, 2}, {6, 1, 2}},
 		Unwind:   12,
 		Desc:     "one emitter sends n stored/deleted events through the real extension.Host brokers to a listener registered under one name for both event types; every listener invocation may be held (symbolic gate per event) until a later invocation or the harness releases it: the emitter is never blocked, the listener is never re-entered, every event is seen once and in emission order (stored before deleted, deliveries in arrival order)",
 		Bounds:   "params (n events <= 6, mixed: every second event is the deleted event of the message stored before it, gap g: the emitter lets the dispatch run after every g-th event); symbolic hold/no-hold per invocation; run-to-block scheduling of the dispatch goroutines otherwise",
